@@ -102,6 +102,43 @@ def run(ctx: core.Ctx):
                     i = int(np.argmax(out != want))
                     ctx.fail("gammastd_grp", dict(x=xg.tolist(), groups=int(ng), dtype=dt, cell=i, value=float(xg[i])), int(out[i]), int(want[i]),
                              note="grouped SPI of a group = ungrouped SPI of its sub-series (same arithmetic precision for the same input dtype)")
+        # accessor: the calibration window handed over as dates (strings or timestamps) on axes that are not stamped at midnight; a date
+        # string is the instant 00:00 of that day, both ends inclusive - the fit must use exactly those steps
+        import pandas as pd
+        import xarray as xr
+        import hdc.algo  # noqa: F401
+        for k in range(ctx.budget(10, 60)):
+            n = rng.choice([12, 18, 36])
+            hour = rng.choice([0, 12, 6, 23])
+            times = pd.date_range("2000-01-01", periods=n, freq="10D") + pd.Timedelta(hours=hour)
+            x = np.clip(np.round(spi.rain_series(rng, n, "float64") + 1), 1, 30000).astype("int16")
+            bi, ei = rng.randrange(0, n // 2), rng.randrange(n // 2 + 2, n)
+            for style in ("string", "timestamp"):
+                if style == "string":
+                    begin, end = str(times[bi].date()), str(times[ei].date())
+                else:
+                    begin, end = times[bi], times[ei]
+                tb, te = pd.Timestamp(begin), pd.Timestamp(end)
+                idx = [i for i, t in enumerate(times) if tb <= t <= te]
+                cs, ce = idx[0], idx[-1] + 1
+                da = xr.DataArray(x.reshape(n, 1, 1), dims=("time", "y", "x"), coords={"time": times}, attrs={"nodata": -9999})
+                try:
+                    got = np.asarray(da.hdc.algo.spi(calibration_begin=begin, calibration_end=end).transpose("time", "y", "x")).reshape(-1).astype(np.int64)
+                except Exception as e:  # noqa: BLE001
+                    if ce - cs >= 2:
+                        ctx.fail("spi accessor", dict(x=x.tolist(), hour=hour, begin=str(begin), end=str(end)), repr(e)[:160], "no exception")
+                    continue
+                ref, info = spi.scipy_spi(x.astype("float64"), -9999.0, cs, ce)
+                ctx.case(("acc-window", x.tobytes(), hour, bi, ei, style), nontrivial=ref is not None, sample=dict(accessor="spi", hour=hour, begin=str(begin), end=str(end), window=[cs, ce]))
+                ctx.count("accessor windows")
+                if ref is None:
+                    continue
+                judged = ~np.isnan(ref) & (np.abs(ref) <= 7000)
+                bad = judged & (np.abs(got - ref) > 0.5 + 1e-4 + 1e-7 * np.abs(ref))
+                if bad.any():
+                    i = int(np.argmax(bad))
+                    ctx.fail("spi accessor", dict(x=x.tolist(), stamps_at_hour=hour, calibration_begin=str(begin), calibration_end=str(end), window=[cs, ce], cell=i),
+                             int(got[i]), float(ref[i]), note="gamma fit on exactly the steps with begin <= t <= end (a date string is 00:00 of that day)")
     finally:
         ctx.notes["oracle_queries"] = dlg.queries
         dlg.close()
